@@ -30,7 +30,17 @@ from sklearn.base import RegressorMixin, clone
 
 from .common import Recorder, ints_from_model, mint
 
-KF_REMAINDER = "KF:column-ensemble-constructor-drops-remainder"
+KF_COLUMN_SET = "KF:column-composites-set-params-list-together-with-component-key-loses-the-component-write"
+KF_WRAPPER = "KF:metric-function-wrapper-bases-keep-func-private-and-rewrite-name"
+KF_FEATURE_UNION = "KF:feature-union-fit-fits-and-replaces-the-given-transformers"
+KF_CBOSS = "KF:cboss-fit-overwrites-time-limit-and-n-parameter-samples"
+KF_STRATEGY = "KF:benchmarking-strategy-parameters-are-read-only-properties"
+
+# constructor arguments that only make the (otherwise very long) fit short
+FAST = {
+    "ContractedShapeletTransform": {"time_contract_in_mins": 0.004, "max_shapelets_to_store_per_class": 2},
+    "ShapeletTransform": {"max_shapelet_length": 4, "max_shapelets_to_store_per_class": 2},
+}
 
 APPLY_METHODS = ("predict", "predict_proba", "transform", "inverse_transform", "update", "update_predict", "score")
 SKIP_MODULE_PARTS = ("tests", "setup", "_build_utils", "__check_build")
@@ -85,7 +95,7 @@ def same(a, b, depth=0):
     """structural equality of parameter values (estimators: same class and equal parameters)"""
     if a is b:
         return True
-    if depth > 8:
+    if depth > 60:
         return False
     if _is_est(a) or _is_est(b):
         if type(a) is not type(b):
@@ -124,7 +134,7 @@ def same(a, b, depth=0):
 
 def digest(v, depth=0):
     """content snapshot of a parameter value including the state of component objects (identity of the leaves)"""
-    if depth > 6:
+    if depth > 40:
         return ("...",)
     if _is_est(v):
         return ("est", id(v), tuple(sorted((k, digest(x, depth + 1)) for k, x in vars(v).items())))
@@ -273,25 +283,53 @@ def alt_value(default, p):
 # ----------------------------------------------------------------------------------------------------------------
 # family 1: the constructor stores every argument under its own name
 # ----------------------------------------------------------------------------------------------------------------
+def _is_wrapper_base(est):
+    n = type(est).__name__
+    return n.startswith("_") and n.endswith("MetricFunctionWrapper") and "func" in init_params(type(est))
+
+
+def _is_strategy(est):
+    return (type(est).__module__ or "") == "sktime.benchmarking.strategies"
+
+
+def known_param_defect(est, p, passed_value, got):
+    """the two known families whose constructor rewrites an argument (narrow: this argument, this rewrite only)"""
+    if p == "name" and passed_value is None and isinstance(got, str):
+        if _is_strategy(est) and got == type(getattr(est, "estimator", None)).__name__:
+            return KF_STRATEGY
+        if _is_wrapper_base(est) and got == getattr(getattr(est, "_func", None), "__name__", None):
+            return KF_WRAPPER
+    return None
+
+
 def read_back(R, est, cname, passed, desc):
     """get_params(deep=False) has exactly the constructor arguments and returns what was passed"""
+    names = set(init_params(type(est)))
     try:
         got = est.get_params(deep=False)
     except Exception as e:
-        R.check("get-params-returns-constructor-arguments", False, f"{desc}: get_params(deep=False) raised {err(e)}")
-        return
-    names = set(init_params(type(est)))
-    R.check("get-params-lists-constructor-arguments", set(got) == names,
-            f"{desc}: get_params(deep=False) has keys {sorted(got)}, the constructor has {sorted(names)}")
+        if _is_wrapper_base(est) and isinstance(e, AttributeError) and "'func'" in str(e) and getattr(est, "_func", None) is passed.get("func"):
+            R.check(KF_WRAPPER, False, f"{desc}: get_params(deep=False) raised {err(e)} (the argument func is kept as _func)")
+        else:
+            R.check("get-params-returns-constructor-arguments", False, f"{desc}: get_params(deep=False) raised {err(e)}")
+        # still read the other arguments the way get_params would
+        got = {}
+        for p in names:
+            try:
+                got[p] = getattr(est, p)
+            except Exception:
+                if not (_is_wrapper_base(est) and p == "func"):
+                    R.check("argument-stored-under-own-name", False, f"{desc}: no attribute {p!r}")
+    else:
+        R.check("get-params-lists-constructor-arguments", set(got) == names,
+                f"{desc}: get_params(deep=False) has keys {sorted(got)}, the constructor has {sorted(names)}")
     for p, v in passed.items():
         if p not in got:
             continue
         g = got[p]
         ok = g is v or (not isinstance(v, Sentinel) and type(g) is type(v) and same(g, v))
-        if not ok and cname in ("ColumnEnsembleClassifier",) and p == "remainder" and isinstance(g, str) and g == "drop":
-            R.check(KF_REMAINDER, False, f"{desc}: get_params()['remainder'] == 'drop', passed {short(v)}")
-            continue
-        R.check("get-params-returns-constructor-arguments", ok, f"{desc}: get_params()[{p!r}] is {short(g)}, passed {short(v)}")
+        kf = None if ok else known_param_defect(est, p, v, g)
+        R.check(kf or "get-params-returns-constructor-arguments", ok, f"{desc}: get_params()[{p!r}] is {short(g)}, passed {short(v)}")
         try:
             a = getattr(est, p)
             R.check("argument-stored-under-own-name", a is g, f"{desc}: attribute {p!r} is {short(a)} but get_params gives {short(g)}")
@@ -299,15 +337,16 @@ def read_back(R, est, cname, passed, desc):
             R.check("argument-stored-under-own-name", False, f"{desc}: getattr({p!r}) raised {err(e)}")
 
 
-def check_clone(R, est, desc, kf_ok=False):
+def check_clone(R, est, desc):
     try:
         with warnings.catch_warnings():
             warnings.simplefilter("ignore")
             c = clone(est)
     except Exception as e:
-        if kf_ok:
-            return None
-        R.check("clone-reproduces-parameters", False, f"{desc}: clone raised {err(e)}")
+        if _is_wrapper_base(est) and isinstance(e, AttributeError) and "'func'" in str(e):
+            R.check(KF_WRAPPER, False, f"{desc}: clone raised {err(e)}")
+        else:
+            R.check("clone-reproduces-parameters", False, f"{desc}: clone raised {err(e)}")
         return None
     ok = c is not est and type(c) is type(est)
     bad = ""
@@ -320,6 +359,11 @@ def check_clone(R, est, desc, kf_ok=False):
     R.check("clone-reproduces-parameters", ok, f"{desc}: clone is {short(c)}{bad}")
     if hasattr(c, "is_fitted"):
         R.check("clone-is-unfitted", c.is_fitted is False, f"{desc}: clone reports is_fitted={c.is_fitted!r}")
+        try:
+            inner = [k for k, v in deep_params(c).items() if _is_est(v) and getattr(v, "is_fitted", False) is not False]
+            R.check("clone-is-unfitted", not inner, f"{desc}: components {inner[:4]} of the clone report is_fitted True")
+        except Exception:
+            pass
     return c
 
 
@@ -338,6 +382,9 @@ def construct_checks(R, qual, cls, stats):
             default = cls(**base)
     except Exception:
         stats["not-constructible"].append(cname)
+        return None
+    if is_abstract(cls, default):
+        stats["abstract"].append(cname)
         return None
     stats["constructed"] += 1
     passed = {p: (base[p] if p in base else d) for p, d in params.items()}
@@ -364,7 +411,7 @@ def construct_checks(R, qual, cls, stats):
             read_back(R, est, cname, kw, desc)
             if hasattr(est, "is_fitted"):
                 R.check("fresh-is-unfitted", est.is_fitted is False, f"{desc} reports is_fitted={est.is_fitted!r}")
-            check_clone(R, est, desc, kf_ok=(cname == "ColumnEnsembleClassifier" and p == "remainder"))
+            check_clone(R, est, desc)
             break
     if len(params) > 1:
         kw = {p: Sentinel("all-" + p) for p in params}
@@ -420,6 +467,24 @@ def deep_params(est):
         return est.get_params(deep=True)
 
 
+def _rebuilt_list(old, now, replaced):
+    if not (isinstance(old, list) and isinstance(now, list) and len(old) == len(now)):
+        return False
+    for a, b in zip(old, now):
+        if not (isinstance(a, tuple) and isinstance(b, tuple) and len(a) == len(b) and len(a) >= 2 and a[0] == b[0]):
+            return False
+        if not (a[1] is b[1] or b[1] is replaced) or any(x is not y and not same(x, y) for x, y in zip(a[2:], b[2:])):
+            return False
+    return True
+
+
+def _strategy_key(est, ex, default):
+    """benchmarking strategies expose estimator / name as properties without setter"""
+    if _is_strategy(est) and isinstance(ex, AttributeError) and ("no setter" in str(ex) or "can't set attribute" in str(ex)):
+        return KF_STRATEGY
+    return default
+
+
 def param_checks(R, est, label, rng, limit):
     """est is a valid (fittable) instance; everything is done on clones"""
     try:
@@ -446,12 +511,30 @@ def param_checks(R, est, label, rng, limit):
             R.check("set-params-get-params-roundtrip", all(digest(after[k]) == snap[k] for k in before if k in after and "__" not in k)
                     or not ok, f"{label}: set_params(**get_params(deep={deep})) altered the content of a parameter value")
         except Exception as ex:
-            R.check("set-params-get-params-roundtrip", False, f"{label}: set_params(**get_params(deep={deep})) raised {err(ex)}")
+            R.check(_strategy_key(est, ex, "set-params-get-params-roundtrip"), False, f"{label}: set_params(**get_params(deep={deep})) raised {err(ex)}")
     try:
         e = clone(est)
         R.check("set-params-get-params-roundtrip", e.set_params() is e, f"{label}: set_params() without arguments did not return self")
     except Exception as ex:
         R.check("set-params-get-params-roundtrip", False, f"{label}: set_params() raised {err(ex)}")
+
+    # --- every own (non-component) parameter can be written and read back -------------------------------------------
+    lists = component_lists(est)
+    for k, v in shallow.items():
+        if k in lists or _is_est(v) or (isinstance(v, list) and v and isinstance(v[0], tuple)):
+            continue
+        try:
+            e = clone(est)
+            ids = {a: id(b) for a, b in e.get_params(deep=False).items()}
+            new = Sentinel("set-" + k)
+            ret = e.set_params(**{k: new})
+            q = e.get_params(deep=False)
+            ok = ret is e and q.get(k) is new and getattr(e, k) is new
+            R.check("set-params-then-get-params", ok, f"{label}: after set_params({k}={new!r}) get_params()[{k!r}] is {short(q.get(k), 40)}")
+            moved = [a for a in ids if a != k and id(q.get(a)) != ids[a]]
+            R.check("set-params-leaves-other-parameters", not moved, f"{label}: set_params({k}=...) also changed {moved[:4]}")
+        except Exception as ex:
+            R.check(_strategy_key(est, ex, "set-params-then-get-params"), False, f"{label}: set_params({k}=<object>) raised {err(ex)}")
 
     # --- unknown names ------------------------------------------------------------------------------------------
     comp_keys = [k for k, v in p.items() if _is_est(v)]
@@ -500,8 +583,8 @@ def param_checks(R, est, label, rng, limit):
                     f"get_params gives {short(q2.get(k), 40)}, component object kept: {q2.get(owner_key) is owner}")
             # frame: nothing outside the written key (and the keys below it) moved
             moved = [a for a, b in ids.items() if a != k and not a.startswith(k + "__") and (a not in q2 or id(q2[a]) != b)]
-            lists = component_lists(e)
-            moved = [a for a in moved if a not in lists]      # a component list may be rebuilt (same entries)
+            # a list of named components may be rebuilt when one entry is replaced: same names, other entries kept
+            moved = [a for a in moved if not _rebuilt_list(q[a], q2.get(a), new)]
             R.check("nested-write-leaves-other-parameters", not moved, f"{label}: set_params({k}=...) also changed {moved[:4]}")
         except Exception as ex:
             R.check("nested-key-writes-component-parameter", False, f"{label}: set_params({k}=<new value>) raised {err(ex)}")
@@ -518,7 +601,7 @@ def param_checks(R, est, label, rng, limit):
                 ok = ok and q.get(k + "__" + a) is b
             R.check("component-replaced-by-name", ok, f"{label}: set_params({k}=<new estimator>) did not install the new component")
         except Exception as ex:
-            R.check("component-replaced-by-name", False, f"{label}: set_params({k}=<new estimator>) raised {err(ex)}")
+            R.check(_strategy_key(est, ex, "component-replaced-by-name"), False, f"{label}: set_params({k}=<new estimator>) raised {err(ex)}")
 
     # --- lists of named components -----------------------------------------------------------------------------------
     for attr in component_lists(est):
@@ -558,8 +641,10 @@ def named_list_checks(R, est, attr, label, rng, limit):
             want = [(a, new if j == i else b) for j, (a, b) in enumerate(before)]
             ok = len(after) == len(want) and all(x[0] == y[0] and x[1] is y[1] for x, y in zip(after, want))
             ok = ok and deep_params(e).get(n) is new
+            wrong = [y[0] for x, y in zip(after, want) if x[0] != y[0] or x[1] is not y[1]]
             R.check("component-replaced-by-name", ok,
-                    f"{label}: set_params({n}=<new estimator>): {attr} is {short(after)}, expected the new object at {n!r} and the others kept")
+                    f"{label}: set_params({n}=<new estimator>): {attr} has the names {[x[0] for x in after]}; expected the new object at {n!r} and "
+                    f"the other entries kept, wrong entries: {wrong}; get_params()[{n!r}] is the new object: {deep_params(e).get(n) is new}")
             extras_ok = [tuple(t[2:]) for t in e.get_params(deep=False)[attr]] == [tuple(t[2:]) for t in items0] or \
                 all(same(a[2:], b[2:]) for a, b in zip(e.get_params(deep=False)[attr], items0))
             R.check("component-replaced-by-name", extras_ok, f"{label}: set_params({n}=...) changed the extra entries of {attr!r}")
@@ -620,14 +705,23 @@ def named_list_checks(R, est, attr, label, rng, limit):
                 raised = None
             except ValueError as ex:
                 raised = ex
+            after = _entries(e, attr) if raised is None else []
+            # known: the column composites route set_params through a derived attribute, so the component keys are
+            # applied to the old list and the list is replaced afterwards -- symptom: exactly the given list is installed
+            lost = (type(est).__name__ in ("ColumnEnsembleClassifier", "ColumnTransformer") and raised is None and len(kw) > 1
+                    and len(after) == len(new_list) and all(x[1] is t[1] for x, t in zip(after, new_list)))
+
+            def chk(key, ok, detail):
+                R.check(KF_COLUMN_SET if (lost and not ok) else key, ok, detail)
+
             if expect_error:
                 # a key naming a component that is not in the list being installed: either rejected, or the value
                 # must be readable afterwards under that key
                 if raised is None:
                     q = deep_params(e)
                     bad = [k for k in kw if k != attr and q.get(k, None) is not kw[k]]
-                    R.check("unknown-parameter-rejected", not bad,
-                            f"{label}: {call} was accepted but afterwards get_params() does not give the value passed for {bad}")
+                    chk("unknown-parameter-rejected", not bad,
+                        f"{label}: {call} was accepted but afterwards get_params() does not give the value passed for {bad}")
                 else:
                     R.check("unknown-parameter-rejected", True, "")
                 continue
@@ -638,19 +732,20 @@ def named_list_checks(R, est, attr, label, rng, limit):
                 else:
                     R.check("component-list-replaced", False, f"{label}: {call} raised {err(raised)}")
                 continue
-            after = _entries(e, attr)
             ok = len(after) == len(model) and all(x[0] == y[0] and x[1] is y[1] for x, y in zip(after, model))
-            R.check("component-list-replaced" if not by_name else "component-replaced-by-name", ok,
-                    f"{label}: {call}: {attr} is {short(after, 160)}, expected {short(model, 160)}")
+            wrong = [y[0] for x, y in zip(after, model) if x[0] != y[0] or x[1] is not y[1]]
+            chk("component-list-replaced" if not by_name else "component-replaced-by-name", ok,
+                f"{label}: {call}: {attr} has the names {[x[0] for x in after]} (expected {[y[0] for y in model]}); the entries {wrong} are not "
+                f"the objects that were passed (list entries first, then components written by name)")
             q = deep_params(e)
             bad = [k for k in kw if k != attr and q.get(k, None) is not kw[k]]
-            R.check("set-params-then-get-params", not bad, f"{label}: {call}: get_params() does not return the value written for {bad}")
+            chk("set-params-then-get-params", not bad, f"{label}: {call}: get_params() does not return the value written for {bad}")
             if nested_of:
                 tgt = nested_of
                 holder = dict(after).get(tgt)
                 leaf = [k for k in kw if k.startswith(tgt + "__")][0].split("__", 1)[1]
-                R.check("nested-key-writes-component-parameter", holder is not None and getattr(holder, leaf, None) is kw[tgt + "__" + leaf],
-                        f"{label}: {call}: component {tgt!r} has {leaf}={short(getattr(holder, leaf, None), 40)}")
+                chk("nested-key-writes-component-parameter", holder is not None and getattr(holder, leaf, None) is kw[tgt + "__" + leaf],
+                    f"{label}: {call}: component {tgt!r} has {leaf}={short(getattr(holder, leaf, None), 40)}")
             stray = [k for k in kw if k != attr and "__" not in k and k in vars(e)]
             R.check("component-replaced-by-name", not stray, f"{label}: {call} created the instance attribute(s) {stray} instead of replacing the component")
         except Exception as ex:
@@ -699,7 +794,7 @@ def kind_of(est):
 
 def fit_call(est, kind, D):
     if kind == "forecaster":
-        return est.fit(D["y"], fh=[1, 2, 3])
+        return est.fit(D["y"], fh=D.get("fh", [1, 2, 3]))
     if kind == "classifier":
         return est.fit(D["Xp"], D["labels"])
     if kind == "regressor":
@@ -731,7 +826,11 @@ def apply_calls(est, kind, D):
         cv = SlidingWindowSplitter(fh=[1], window_length=1, start_with_window=False)
         add("update_predict", "y_new, cv=SlidingWindowSplitter(fh=[1], window_length=1, start_with_window=False)", y_new, cv)
         add("update_predict", "y_new, cv=..., update_params=False", y_new, cv, update_params=False)
+        add("update_predict", "y_new", y_new)
         add("score", "y_new, fh=[1..5]", y_new, fh=[1, 2, 3, 4, 5])
+        add("score", "y_new[:2], fh=[1, 2]", y_new.iloc[:2], fh=[1, 2])
+        add("transform", "y", y)                       # pipelines and tuners over pipelines
+        add("inverse_transform", "y", y)
     elif kind in ("classifier", "regressor"):
         add("predict", "X", Xp)
         add("predict_proba", "X", Xp)
@@ -769,67 +868,143 @@ def not_fitted_checks(R, est, kind, D, label, state):
         R.check("not-fitted-call-keeps-unfitted", est.is_fitted is False, f"{state} {label}.{desc} left is_fitted={est.is_fitted!r}")
 
 
-def fitted_state_checks(R, est, label, D, stats, refit=True):
-    """est: a fresh valid instance (is consumed)"""
+class _Timeout(BaseException):
+    pass
+
+
+def guarded(seconds, thunk):
+    """run thunk(); give up (raise _Timeout) after `seconds` when an interval timer is available"""
+    import signal
+    import threading
+    if not hasattr(signal, "setitimer") or threading.current_thread() is not threading.main_thread():
+        return thunk()
+
+    def handler(*a):
+        raise _Timeout()
+
+    old = signal.signal(signal.SIGALRM, handler)
+    signal.setitimer(signal.ITIMER_REAL, seconds)
+    try:
+        return thunk()
+    finally:
+        signal.setitimer(signal.ITIMER_REAL, 0)
+        signal.signal(signal.SIGALRM, old)
+
+
+def _plain(v):
+    return v is None or isinstance(v, (bool, int, float, str, np.generic))
+
+
+def frame_snapshot(est):
+    before = deep_params(est)
+    return {"before": before, "ids": {k: id(v) for k, v in before.items()}, "digest": {k: digest(v) for k, v in before.items()},
+            "copies": {k: copy.deepcopy(v) for k, v in est.get_params(deep=False).items() if not _is_est(v)}}
+
+
+def frame_check(R, est, label, snap, when):
+    """every constructor parameter (deep) is the object it was, with the content and state it had"""
+    before, ids = snap["before"], snap["ids"]
+    try:
+        after = deep_params(est)
+    except Exception as ex:
+        R.check("fit-leaves-parameters", False, f"{label}: get_params after {when} raised {err(ex)}")
+        return
+    changed = [k for k in before if k not in after or (id(after[k]) != ids[k] and not (
+        _plain(before[k]) and type(after[k]) is type(before[k]) and same(after[k], before[k])))]
+    changed += [k for k in after if k not in before]
+    mutated = [k for k in before if k in after and k not in changed and digest(after[k]) != snap["digest"][k]
+               and not _plain(before[k])]
+    shallow = est.get_params(deep=False)
+    mutated += [k for k, v in snap["copies"].items() if k not in changed and k not in mutated and not same(shallow.get(k), v)]
+    cname = type(est).__name__
+    ex_txt = f" (e.g. {changed[0]}: {short(before.get(changed[0]), 50)} -> {short(after.get(changed[0]), 50)})" if changed else ""
+    if cname == "FeatureUnion" and (changed or mutated):
+        # sklearn's FeatureUnion.fit fits the given transformers in place and writes them back into transformer_list
+        names = {t[0] for t in before.get("transformer_list", [])}
+        if all(k == "transformer_list" or k.split("__")[0] in names for k in changed + mutated):
+            R.check(KF_FEATURE_UNION, False, f"{label}: {when} fitted/replaced the transformers given in transformer_list: {(changed + mutated)[:5]}")
+            return
+    if cname == "ContractableBOSS" and changed and set(changed) <= {"time_limit", "n_parameter_samples"} and not mutated:
+        # fit does `self.time_limit = self.time_limit * 60` and, under a time limit, `self.n_parameter_samples = 0`
+        R.check(KF_CBOSS, False, f"{label}: {when} changed " + ", ".join(f"{k} {short(before[k])} -> {short(after[k])}" for k in changed))
+        return
+    R.check("fit-leaves-parameters", not changed, f"{label}: after {when} get_params() gives other values for {changed[:5]}{ex_txt}")
+    R.check("fit-leaves-parameter-contents", not mutated, f"{label}: {when} changed the content/state of the parameter value(s) {mutated[:5]}")
+
+
+def fitted_state_checks(R, est, label, D, stats, budget, refit=True, note=True):
+    """est: a fresh valid instance (is consumed); returns the wall time of the first fit (None when it did not run)"""
+    import time
     kind = kind_of(est)
     if kind is None or not hasattr(est, "is_fitted"):
-        return
+        return None
     R.check("fresh-is-unfitted", est.is_fitted is False, f"fresh {label} reports is_fitted={est.is_fitted!r}")
     not_fitted_checks(R, est, kind, D, label, "fresh")
     c0 = clone(est)
     R.check("clone-is-unfitted", c0.is_fitted is False, f"clone of fresh {label} reports is_fitted={c0.is_fitted!r}")
     not_fitted_checks(R, c0, kind, D, label, "clone of fresh")
 
-    # fit
-    before = deep_params(est)
-    ids = {k: id(v) for k, v in before.items()}
-    snap = {k: digest(v) for k, v in before.items()}
-    copies = {k: copy.deepcopy(v) for k, v in est.get_params(deep=False).items() if not _is_est(v)}
+    snap = frame_snapshot(est)
+    t0 = time.time()
     try:
         with warnings.catch_warnings():
             warnings.simplefilter("ignore")
-            ret = fit_call(est, kind, D)
+            ret = guarded(budget, lambda: fit_call(est, kind, D))
+    except _Timeout:
+        if note:
+            stats["fit-failed"].append(f"{label} (fit longer than {budget}s)")
+        return None
     except Exception as ex:
-        stats["fit-failed"].append(f"{label} ({type(ex).__name__})")
-        return
+        if note:
+            stats["fit-failed"].append(f"{label} ({type(ex).__name__})")
+        return None
+    took = time.time() - t0
     stats["fitted"] += 1
     R.check("fit-returns-self", ret is est, f"{label}.fit returned {short(ret, 60)}")
     R.check("fit-sets-is-fitted", est.is_fitted is True, f"{label}: is_fitted={est.is_fitted!r} after fit")
-    try:
-        after = deep_params(est)
-        changed = [k for k in before if k not in after or id(after[k]) != ids[k]] + [k for k in after if k not in before]
-        R.check("fit-leaves-parameters", not changed,
-                f"{label}: after fit get_params() gives other objects for {changed[:5]} "
-                f"(e.g. {short(before.get(changed[0]), 50)} -> {short(after.get(changed[0]), 50)})" if changed else "")
-        mutated = [k for k in before if k in after and digest(after[k]) != snap[k]]
-        R.check("fit-leaves-parameter-contents", not mutated, f"{label}: fit changed the content/state of the parameter value(s) {mutated[:5]}")
-        shallow = est.get_params(deep=False)
-        diff = [k for k, v in copies.items() if not same(shallow.get(k), v)]
-        R.check("fit-leaves-parameter-contents", not diff, f"{label}: fit changed the value of {diff[:5]}")
-    except Exception as ex:
-        R.check("fit-leaves-parameters", False, f"{label}: get_params after fit raised {err(ex)}")
+    frame_check(R, est, label, snap, "fit")
 
     # clone of the fitted estimator is unfitted again and behaves like a fresh one
     c = check_clone(R, est, f"fitted {label}")
     if c is not None:
         not_fitted_checks(R, c, kind, D, label, "clone of fitted")
-        attrs = [a for a in vars(c) if a.endswith("_") and not a.startswith("_") and vars(c)[a] is not None]
-        fitted_attrs = [a for a in attrs if a in vars(est) and vars(est)[a] is vars(c)[a]]
-        R.check("clone-is-unfitted", not fitted_attrs, f"clone of fitted {label} shares fitted attributes {fitted_attrs[:4]}")
-    if refit:
+    if refit and took < budget / 3:
         try:
             with warnings.catch_warnings():
                 warnings.simplefilter("ignore")
-                ret = fit_call(est, kind, D)
+                ret = guarded(budget, lambda: fit_call(est, kind, D))
             R.check("fit-returns-self", ret is est and est.is_fitted is True, f"second {label}.fit returned {short(ret, 60)}, is_fitted={est.is_fitted!r}")
-            after = deep_params(est)
-            changed = [k for k in before if k not in after or id(after[k]) != ids[k]]
-            R.check("fit-leaves-parameters", not changed, f"{label}: after the second fit get_params() gives other objects for {changed[:5]}")
-            # writes after fit still go to the objects given to the constructor
-            R.check("fit-leaves-parameter-contents", all(digest(after[k]) == snap[k] for k in before if k in after),
-                    f"{label}: the second fit changed the content/state of a parameter value")
+            frame_check(R, est, label, snap, "the second fit")
+        except _Timeout:
+            pass
         except Exception as ex:
-            stats["fit-failed"].append(f"{label} second fit ({type(ex).__name__})")
+            if note:
+                stats["fit-failed"].append(f"{label} second fit ({type(ex).__name__})")
+    return took
+
+
+def perturbed_fit_checks(R, cls, base, D, stats, rng, how_many, budget):
+    """fit with one numeric constructor argument moved off its default: the frame must hold for every assignment"""
+    numeric = [p for p, d in init_params(cls).items() if p not in base and isinstance(d, (bool, int, float))
+               and d == d and abs(d) != float("inf") and p not in ("verbose", "n_jobs")]
+    if len(numeric) > how_many:
+        numeric = rng.sample(numeric, how_many)
+    for p in numeric:
+        d = init_params(cls)[p]
+        try:
+            with warnings.catch_warnings():
+                warnings.simplefilter("ignore")
+                est = cls(**dict(base, **{p: alt_value(d, p)}))
+                kind = kind_of(est)
+                snap = frame_snapshot(est)
+                ret = guarded(budget, lambda: fit_call(est, kind, D))
+        except (_Timeout, Exception):
+            continue
+        label = f"{cls.__name__}({p}={alt_value(d, p)!r})"
+        stats["fitted"] += 1
+        R.check("fit-returns-self", ret is est, f"{label}.fit returned {short(ret, 60)}")
+        R.check("fit-sets-is-fitted", est.is_fitted is True, f"{label}: is_fitted={est.is_fitted!r} after fit")
+        frame_check(R, est, label, snap, "fit")
 
 
 # ----------------------------------------------------------------------------------------------------------------
@@ -857,6 +1032,7 @@ def compositions(tier):
     from sktime.transformations.series.detrend import ConditionalDeseasonalizer, Deseasonalizer, Detrender
 
     N = NaiveForecaster
+    _Y0 = pd.Series(np.arange(12, dtype=float) + 5.0)
 
     def pipe():
         return TransformedTargetForecaster([("detrend", Detrender(PolynomialTrendForecaster(degree=1))), ("fcst", N("mean"))])
@@ -908,6 +1084,12 @@ def compositions(tier):
         ("pipeline[optional(log), detrend(ensemble), multiplex]", lambda: TransformedTargetForecaster(
             [("opt", OptionalPassthrough(LogTransformer())), ("detrend", Detrender(ens())),
              ("mux", MultiplexForecaster([("x", N("mean")), ("y", N("drift"))], selected_forecaster="x"))])),
+        # components that are already fitted when the composite is built: the composite itself is still unfitted
+        ("ensemble[fitted a, fitted b]", lambda: EnsembleForecaster([("a", N("last").fit(_Y0)), ("b", N("mean").fit(_Y0, fh=[1]))])),
+        ("pipeline[fitted detrend, fitted fcst]", lambda: TransformedTargetForecaster(
+            [("detrend", Detrender(PolynomialTrendForecaster(degree=1)).fit(_Y0)), ("fcst", N("mean").fit(_Y0))])),
+        ("grid-search(fitted naive)", lambda: ForecastingGridSearchCV(N("mean").fit(_Y0), SingleWindowSplitter(fh=[1, 2, 3]), {"window_length": [2, 5]})),
+        ("Detrender(fitted PolynomialTrendForecaster)", lambda: Detrender(PolynomialTrendForecaster(degree=1).fit(_Y0))),
         # panel
         ("column-ensemble[c0, c1]", lambda: ColumnEnsembleClassifier([("c0", boss(), [0]), ("c1", boss(), [0])])),
         ("feature-union[t1, t2]", lambda: FeatureUnion([("t1", SeriesToSeriesRowTransformer(StandardScaler(), check_transformer=False)),
@@ -915,6 +1097,62 @@ def compositions(tier):
         ("row-transformer(StandardScaler)", lambda: SeriesToSeriesRowTransformer(StandardScaler(), check_transformer=False)),
         ("column-concatenator", lambda: ColumnConcatenator()),
     ]
+    return out
+
+
+WRAPPERS = ("ensemble", "online", "pipeline", "detrend", "multiplex", "stacking", "grid")
+
+
+def _wrap(kind, inner):
+    """a composite forecaster of the given kind around the forecaster `inner`"""
+    from sktime.forecasting.compose import EnsembleForecaster, MultiplexForecaster, StackingForecaster, TransformedTargetForecaster
+    from sktime.forecasting.model_selection import ForecastingGridSearchCV, SingleWindowSplitter
+    from sktime.forecasting.naive import NaiveForecaster
+    from sktime.forecasting.online_learning import OnlineEnsembleForecaster
+    from sktime.forecasting.trend import PolynomialTrendForecaster
+    from sktime.transformations.series.detrend import Detrender
+    if kind == "ensemble":
+        return EnsembleForecaster([("m", inner), ("n", NaiveForecaster("last"))])
+    if kind == "online":
+        return OnlineEnsembleForecaster([("n", NaiveForecaster("mean")), ("m", inner)])
+    if kind == "pipeline":
+        return TransformedTargetForecaster([("d", Detrender(PolynomialTrendForecaster(degree=1))), ("m", inner)])
+    if kind == "detrend":
+        return TransformedTargetForecaster([("d", Detrender(inner)), ("n", NaiveForecaster("mean"))])
+    if kind == "multiplex":
+        return MultiplexForecaster([("n", NaiveForecaster("drift")), ("m", inner)], selected_forecaster="m")
+    if kind == "stacking":
+        return StackingForecaster([("m", inner), ("n", NaiveForecaster("drift"))], final_regressor=StubReg())
+    if kind == "grid":
+        plain = sorted(k for k, v in inner.get_params(deep=True).items() if isinstance(v, (str, int)) and not isinstance(v, bool))
+        grid = {plain[0]: [inner.get_params(deep=True)[plain[0]]]} if plain else {}
+        return ForecastingGridSearchCV(inner, SingleWindowSplitter(fh=[1, 2, 3]), grid)
+    raise KeyError(kind)
+
+
+def generated_compositions(tier, rng):
+    """every wrapper kind around every leaf, every wrapper around every wrapper (depth 2), a sample of depth 3"""
+    import itertools
+    from sktime.forecasting.compose import RecursiveTabularRegressionForecaster
+    from sktime.forecasting.naive import NaiveForecaster
+    from sktime.forecasting.trend import PolynomialTrendForecaster
+    leaves = {"naive": lambda: NaiveForecaster("last", window_length=4), "trend": lambda: PolynomialTrendForecaster(degree=1),
+              "reduction": lambda: RecursiveTabularRegressionForecaster(StubReg(), window_length=3)}
+    quick = tier == "quick"
+    chains = [(w, leaf) for w in WRAPPERS for leaf in leaves]
+    d2 = [(a, b, "naive") for a, b in itertools.product(WRAPPERS, WRAPPERS)]
+    d3 = [(a, b, c, "naive") for a, b, c in itertools.product(WRAPPERS, WRAPPERS, WRAPPERS)]
+    if quick:
+        chains = rng.sample(chains, 6)
+    chains += rng.sample(d2, 8 if quick else len(d2)) + rng.sample(d3, 3 if quick else 40)
+    out = []
+    for ch in chains:
+        def make(ch=ch):
+            est = leaves[ch[-1]]()
+            for w in reversed(ch[:-1]):
+                est = _wrap(w, est)
+            return est
+        out.append(("(".join(ch) + ")" * (len(ch) - 1), make))
     return out
 
 
@@ -930,20 +1168,52 @@ def _one_thread():
         return contextlib.nullcontext()
 
 
+def is_abstract(cls, default=None):
+    if getattr(cls, "__abstractmethods__", None):
+        return True
+    if default is not None:
+        try:
+            default.get_params(deep=False)
+        except NotImplementedError:
+            return True
+        except Exception:
+            return False
+    return False
+
+
+def _mro_names(obj_or_cls):
+    cls = obj_or_cls if inspect.isclass(obj_or_cls) else type(obj_or_cls)
+    return {c.__name__ for c in cls.__mro__}
+
+
+def _involves(est, only):
+    """does the composition contain an object of one of the named classes (or of a subclass)?"""
+    if _mro_names(est) & only:
+        return True
+    try:
+        return any(_is_est(v) and (_mro_names(v) & only) for v in deep_params(est).values())
+    except Exception:
+        return False
+
+
 def run_all(R, tier, seed, only=None):
     rng = random.Random(seed)
     classes, broken = discover()
-    stats = {"constructed": 0, "not-constructible": [], "fitted": 0, "fit-failed": []}
-    limit = 6 if tier == "quick" else 40
-    seeds = [seed] if tier == "quick" else [seed, seed + 1]
+    stats = {"constructed": 0, "not-constructible": [], "abstract": [], "fitted": 0, "fit-failed": []}
+    quick = tier == "quick"
+    limit = 6 if quick else 40
+    budget = 4.0 if quick else 25.0
+    seeds = [seed] if quick else [seed, seed + 1]
     D = make_data(seed, 0)
-    with warnings.catch_warnings(), _one_thread():
+    import contextlib
+    import io
+    with warnings.catch_warnings(), _one_thread(), contextlib.redirect_stdout(io.StringIO()):
         warnings.simplefilter("ignore")
         for qual, cls in classes.items():
-            if only and not any(o in qual for o in only):
+            if only and not (_mro_names(cls) & only):
                 continue
-            if getattr(cls, "__abstractmethods__", None):
-                stats["not-constructible"].append(cls.__name__)
+            if is_abstract(cls):
+                stats["abstract"].append(cls.__name__)
                 continue
             default = construct_checks(R, qual, cls, stats)
             if default is None:
@@ -957,21 +1227,43 @@ def run_all(R, tier, seed, only=None):
             param_checks(R, default, f"default {cls.__name__}", rng, limit)
             if is_public_concrete(cls) and hasattr(default, "is_fitted") and kind_of(default):
                 try:
-                    fresh = cls(**standins(cls))
+                    base = dict(standins(cls), **FAST.get(cls.__name__, {}))
+                    fresh = cls(**base)
                 except Exception:
                     continue
-                fitted_state_checks(R, fresh, cls.__name__, D, stats)
+                took = fitted_state_checks(R, fresh, cls.__name__, D, stats, budget)
+                if took is not None and took < (0.15 if quick else 1.5):
+                    perturbed_fit_checks(R, cls, base, D, stats, rng, 4 if quick else 100, budget)
+                if not quick and kind_of(default) == "forecaster":
+                    fitted_state_checks(R, cls(**base), cls.__name__ + " fitted without fh", dict(make_data(seed + 2, 5), fh=None), stats, budget,
+                                        note=False)
         for label, make in compositions(tier):
-            if only and not any(o in label for o in only):
-                continue
             try:
                 est = make()
             except Exception:
                 stats["not-constructible"].append(label)
                 continue
+            if only and not _involves(est, only):
+                continue
             param_checks(R, est, label, rng, limit)
             for i, s in enumerate(seeds):
-                fitted_state_checks(R, make(), label, make_data(s, 0 if i == 0 else 3), stats)
+                fitted_state_checks(R, make(), label, make_data(s, 0 if i == 0 else 3), stats, budget)
+            if not quick and kind_of(est) == "forecaster":
+                # the horizon is given to predict only (forecasters that need it in fit refuse: nothing is claimed then)
+                fitted_state_checks(R, make(), label + " fitted without fh", dict(make_data(seed + 2, 5), fh=None), stats, budget, note=False)
+        gen = generated_compositions(tier, rng)
+        for label, make in gen:
+            try:
+                est = make()
+            except Exception:
+                stats["not-constructible"].append(label)
+                continue
+            if only and not _involves(est, only):
+                continue
+            param_checks(R, est, label, rng, limit if quick else 12)
+            fitted_state_checks(R, make(), label, D, stats, budget, note=False)
+    stats["compositions"] = len(compositions(tier))
+    stats["generated"] = len(gen)
     return stats, broken
 
 
@@ -982,23 +1274,56 @@ def bounded(tier, seed):
     R.bound = (
         f"{len(classes)} classes with the sklearn parameter protocol found by walking the package ({stats['constructed']} constructed with stand-ins "
         f"for the arguments without default); constructor: each argument in turn and all at once set to a unique object; get_params/set_params/clone/"
-        f"unknown names/nested keys/replacement by name on every default instance and on 35 compositions of depth <= 3 (pipelines, ensembles, stacking, "
+        f"unknown names/nested keys/replacement by name on every default instance and on {stats.get('compositions')} hand-written compositions of depth <= 3 plus {stats.get('generated')} generated nestings (each of the wrappers {'/'.join(WRAPPERS)} around each leaf, depth 2 {'sample' if tier == 'quick' else 'complete'}, depth 3 sample) (pipelines, ensembles, stacking, "
         f"multiplexer, tuners, column ensemble, feature union; whole-list replacement with same/new names combined with by-name and nested keys); "
         f"fitted state: every apply-type method ({', '.join(APPLY_METHODS)}) with ordinary and empty data and option values on fresh, cloned and "
         f"cloned-after-fit instances; fit on one series of 24 points / a panel of 8x16 ({stats['fitted']} fits ran). "
         f"Not importable here (not covered): {len(broken)} modules ({', '.join(b.replace('sktime.', '') for b in broken[:40])}). "
-        f"Not constructible here: {sorted(set(stats['not-constructible']))}. Constructed but fit does not run in the sandbox (parameter and "
+        f"Abstract (no instance): {sorted(set(stats['abstract']))}. Not constructible here: {sorted(set(stats['not-constructible']))}. Constructed but fit does not run in the sandbox (parameter and "
         f"not-fitted checks still done): {sorted(set(stats['fit-failed']))}")
     return R.result()
 
 
 def replay(rec):
+    """the symbolic side reports `<path>::<Class>.<method>` with the constructor arguments of the counterexample
+    (`arg_<name>`): rebuild that object with those values, then run every check that involves the class"""
     R = Recorder("replay")
+    m = rec.get("model") or {}
     target = str(rec.get("target") or "")
-    case = str(rec.get("case") or "")
-    names = [w for w in target.replace(":", ".").replace("/", ".").split(".") if w[:1].isupper()]
+    tail = target.split("::")[-1]
+    names = {w for w in tail.replace(":", ".").split(".") if w and not w.startswith("__")}
     classes, _ = discover()
-    known = {c.__name__ for c in classes.values()}
-    only = [n for n in names if n in known]
+    by_name = {}
+    for c in classes.values():
+        by_name.setdefault(c.__name__, c)
+    only = {n for n in names if n in by_name}
+    built = {}
+    with warnings.catch_warnings():
+        warnings.simplefilter("ignore")
+        for n in sorted(only):
+            cls = by_name[n]
+            if is_abstract(cls):
+                continue
+            try:
+                kw = dict(standins(cls))
+                for p, d in init_params(cls).items():
+                    raw = m.get("arg_" + p)
+                    if raw is None or p in kw:
+                        continue
+                    try:
+                        kw[p] = float(raw) if isinstance(d, float) else int(str(raw))
+                    except (TypeError, ValueError):
+                        kw[p] = Sentinel("model-" + p)
+                est = cls(**kw)
+            except Exception:
+                continue
+            if is_abstract(cls, est):
+                continue
+            built[n] = {k: short(v, 40) for k, v in kw.items()}
+            read_back(R, est, n, kw, f"{n}({', '.join(f'{k}={short(v, 30)}' for k, v in kw.items())})")
+            if hasattr(est, "is_fitted"):
+                R.check("fresh-is-unfitted", est.is_fitted is False, f"fresh {n} reports is_fitted={est.is_fitted!r}")
+            check_clone(R, est, f"{n} built from the counterexample")
     run_all(R, "quick", 0, only=only or None)
-    return {"reproduced": bool(R.failures), "detail": R.failures[:3], "input": {"classes": only or "all", "case": case}}
+    f = [x for x in R.failures if not x["key"].startswith("KF:")] + [x for x in R.failures if x["key"].startswith("KF:")]
+    return {"reproduced": bool(f), "detail": f[:3], "input": {"classes": sorted(only) or "all", "constructed": built, "case": rec.get("case")}}
